@@ -38,6 +38,7 @@ import (
 	hms "github.com/smarthome-go/homescript/v3/homescript"
 	aast "github.com/smarthome-go/homescript/v3/homescript/analyzer/ast"
 	"github.com/smarthome-go/homescript/v3/homescript/diagnostic"
+	"github.com/smarthome-go/homescript/v3/homescript/lexer"
 	"github.com/smarthome-go/homescript/v3/homescript/optimizer"
 	past "github.com/smarthome-go/homescript/v3/homescript/parser/ast"
 	"github.com/smarthome-go/homescript/v3/homescript/runtime"
@@ -46,6 +47,47 @@ import (
 func init() {
 	register("reprint", func(args []string) int { return lineLoop(reprintLine) })
 	register("optimize", func(args []string) int { return lineLoop(optimizeLine) })
+	register("strlit", func(args []string) int { return lineLoop(strlitLine) })
+}
+
+// ---- hv strlit: how both printers write one string value, and what the lexer reads back --------
+//
+// Input line:  (c1 c2 …) code points of the VALUE of a string literal
+// Output line: P=(code points of parser/ast StringLiteralExpression.String()) | A=(… analyzer/ast …)
+//              | RP=<n tokens before EOF>:<kind of the first>:(code points of its value) | RA=…
+//              a lexer error is reported as R?=ERR x<hex>
+
+func rpRelex(text string) string {
+	lx := lexer.NewLexer(text, "t")
+	n := 0
+	kind := -1
+	value := ""
+	for i := 0; i < len(text)+3; i++ {
+		t, e := lx.NextToken()
+		if e != nil {
+			return "ERR " + hexs(e.Message)
+		}
+		if t.Kind == lexer.EOF {
+			break
+		}
+		if n == 0 {
+			kind = int(t.Kind)
+			value = t.Value
+		}
+		n++
+	}
+	return fmt.Sprintf("%d:%d:%s", n, kind, R(value).String())
+}
+
+func strlitLine(line string) string {
+	sx, err := parseSx(line)
+	if err != nil || !sx.IsL {
+		return "BAD-INPUT"
+	}
+	v := sx.Runes()
+	p := guarded(func() string { return past.StringLiteralExpression{Value: v}.String() })
+	a := guarded(func() string { return aast.AnalyzedStringLiteralExpression{Value: v}.String() })
+	return fmt.Sprintf("P=%s | A=%s | RP=%s | RA=%s", R(p).String(), R(a).String(), rpRelex(p), rpRelex(a))
 }
 
 // ---- span-erased dump of the parser AST ------------------------------------------------
@@ -361,16 +403,18 @@ func rpAnalyzeMods(mods map[string]string) (map[string]aast.AnalyzedProgram, str
 			first = "syntax: " + s.Message
 		}
 	}
+	at := "-"
 	for _, d := range diags {
 		if d.Level == diagnostic.DiagnosticLevelError {
 			nerr++
 			if first == "" {
 				first = d.Message
+				at = spanStr(d.Span)
 			}
 		}
 	}
 	if len(syn) > 0 || nerr > 0 {
-		return nil, fmt.Sprintf("A=REJECT syn=%d diag=%d first=%s", len(syn), nerr, hexs(first)), false
+		return nil, fmt.Sprintf("A=REJECT syn=%d diag=%d first=%s at=%s", len(syn), nerr, hexs(first), at), false
 	}
 	return analyzed, "A=ACCEPT", true
 }
